@@ -12,5 +12,6 @@ CONSTANTS Keys = {"a"}
           DialSet = {"ok"}
           AllowClose = FALSE
           D = 5
+          Ops = {"Call", "Emit", "Dial", "End", "Cancel", "Drain", "Tick", "Close"}
 INVARIANTS GEmit GAllClosed
 CHECK_DEADLOCK FALSE
